@@ -930,8 +930,28 @@ func c27SetClientID(v any, id string) (any, bool) {
 
 type c27IsValider interface{ IsValid([]byte) error }
 
+type c27NetworkIDIsValider interface {
+	IsValid(base.NetworkID) error
+}
+
+type c27ValidAdapter struct{ v c27NetworkIDIsValider }
+
+func (a c27ValidAdapter) IsValid(b []byte) error { return a.v.IsValid(base.NetworkID(b)) }
+
+// c27AsIsValider finds the validity method of v (a few types spell the parameter base.NetworkID).
+func c27AsIsValider(v any) (c27IsValider, bool) {
+	switch t := v.(type) {
+	case c27IsValider:
+		return t, true
+	case c27NetworkIDIsValider:
+		return c27ValidAdapter{v: t}, true
+	default:
+		return nil, false
+	}
+}
+
 func c27Validity(t ev.TB, r *ev.Rec, what string, v any, networkID []byte) (valid bool, err error, has bool) {
-	iv, ok := v.(c27IsValider)
+	iv, ok := c27AsIsValider(v)
 	if !ok {
 		return false, nil, false
 	}
@@ -1291,6 +1311,16 @@ func c27RoundTrip(t ev.TB, r *ev.Rec, o encObj, topHints, nestedHints map[string
 	return b1
 }
 
+// c27WantSample spreads the few evidence samples over different kinds of objects.
+func c27WantSample(r *ev.Rec, entry string) bool {
+	switch entry {
+	case "init-ballot:suffrage-confirm", "accept-voteproof:stuck", "operation:expel", "suffrage-proof", "handover-data-message":
+		return r.WantSample()
+	default:
+		return false
+	}
+}
+
 func c27Short(b []byte) string {
 	if len(b) > 1500 {
 		return string(b[:1500]) + "…"
@@ -1384,51 +1414,64 @@ func TestC27(t *testing.T) {
 
 	topHints, nestedHints := map[string]int{}, map[string]int{}
 
-	r.Checks(40*len(cat), 1200*len(cat))
 	r.ShrinkTime(20 * time.Second)
 
-	rapid.Check(t, func(rt *rapid.T) {
-		i := rapid.IntRange(0, len(cat)).Draw(rt, "entry")
-		if i == len(cat) {
-			kind, s := c27StringHinted(rt, r, rt, topHints)
-			r.Case("string|"+s, true, "kind:"+kind, "valid")
-
-			return
+	// one rapid run per catalog entry, so that every registered type gets the same number of cases
+	for i := range cat {
+		if r.Failed() {
+			break
 		}
 
-		o := cat[i].Gen(rt)
+		e := cat[i]
 
-		if o.WantValid != nil {
-			if iv, ok := o.V.(c27IsValider); ok {
-				err := iv.IsValid(gen.NetworkID)
-				if (err == nil) != *o.WantValid {
-					rt.Fatalf("harness: generator %s {%s} promised valid=%v but IsValid says: %+v", cat[i].Name, o.Variant, *o.WantValid, err)
+		t.Run(e.Name, func(t *testing.T) {
+			r.Checks(40, 3000)
+			rapid.Check(t, func(rt *rapid.T) {
+				o := e.Gen(rt)
+
+				if o.WantValid != nil {
+					if iv, ok := c27AsIsValider(o.V); ok {
+						err := iv.IsValid(gen.NetworkID)
+						if (err == nil) != *o.WantValid {
+							rt.Fatalf("harness: generator %s {%s} promised valid=%v but IsValid says: %+v", e.Name, o.Variant, *o.WantValid, err)
+						}
+					}
 				}
-			}
-		}
 
-		b1 := c27RoundTrip(rt, r, o, topHints, nestedHints)
+				b1 := c27RoundTrip(rt, r, o, topHints, nestedHints)
 
-		validity := "validity:unchecked"
-		if iv, ok := o.V.(c27IsValider); ok {
-			if iv.IsValid(gen.NetworkID) == nil {
-				validity = "valid"
-			} else {
-				validity = "invalid"
-			}
-		}
+				validity := "validity:unchecked"
+				if iv, ok := c27AsIsValider(o.V); ok {
+					if iv.IsValid(gen.NetworkID) == nil {
+						validity = "valid"
+					} else {
+						validity = "invalid"
+					}
+				}
 
-		nt := "trivial"
-		if o.Nontrivial {
-			nt = "nontrivial"
-		}
+				nt := "trivial"
+				if o.Nontrivial {
+					nt = "nontrivial"
+				}
 
-		r.Case(cat[i].Name+"|"+o.Variant, o.Nontrivial, "kind:"+o.Kind, "entry:"+cat[i].Name, validity, nt)
+				r.Case(e.Name+"|"+o.Variant, o.Nontrivial, "kind:"+o.Kind, validity, nt)
 
-		if o.Nontrivial && r.WantSample() && len(b1) < 6000 {
-			r.Sample(map[string]any{"entry": cat[i].Name, "kind": o.Kind, "shape": o.Variant, "validity": validity, "encoded": json.RawMessage(b1)})
-		}
-	})
+				if o.Nontrivial && len(b1) < 6000 && c27WantSample(r, e.Name) {
+					r.Sample(map[string]any{"entry": e.Name, "kind": o.Kind, "shape": o.Variant, "validity": validity, "encoded": json.RawMessage(b1)})
+				}
+			})
+		})
+	}
+
+	if !r.Failed() {
+		t.Run("string-hinted", func(t *testing.T) {
+			r.Checks(40, 400)
+			rapid.Check(t, func(rt *rapid.T) {
+				kind, s := c27StringHinted(rt, r, rt, topHints)
+				r.Case("string|"+s, true, "kind:"+kind, "valid", "nontrivial")
+			})
+		})
+	}
 
 	// ---- coverage of the registered hints
 	var all []string
@@ -1459,7 +1502,7 @@ func TestC27(t *testing.T) {
 	r.Extra("hints_only_nested", len(uncoveredTop)-len(uncovered))
 	r.Extra("hints_uncovered", uncovered)
 
-	if !r.Failed() && r.Shards <= 1 && len(uncovered) > 0 {
+	if !r.Failed() && len(uncovered) > 0 {
 		t.Fatalf("harness: registered hints never generated: %v", uncovered)
 	}
 }
